@@ -296,6 +296,10 @@ func init() {
 				hammerPts[hi] = orb.Point{float64(c.rng.Intn(1025)), float64(c.rng.Intn(1025))}
 				hammerAlone[hi] = qtID(q.Find(hammerPts[hi]))
 			}
+			hammerK2 := make([]string, len(hammerPts))
+			for hi := range hammerPts {
+				hammerK2[hi] = fmt.Sprint(idsOf(q.KNearest(nil, hammerPts[hi], 2)))
+			}
 			sites := make([]string, ng)
 			var wg sync.WaitGroup
 			start := make(chan struct{})
@@ -305,6 +309,21 @@ func init() {
 					defer wg.Done()
 					<-start
 					sites[g] = guard(func() {
+						abortAndAsk := func(rep int) bool {
+							func() {
+								defer func() { recover() }()
+								seen := 0
+								q.KNearestMatching(nil, orb.Point{float64(100 * g), 512}, 5, func(orb.Pointer) bool {
+									seen++
+									if seen == 4 {
+										panic("the caller's filter gives up")
+									}
+									return true
+								})
+							}()
+							hi := (g*17 + rep*5) % len(hammerPts)
+							return fmt.Sprint(idsOf(q.KNearest(nil, hammerPts[hi], 2))) == hammerK2[hi]
+						}
 						if g%3 == 0 {
 							// a caller whose filter gives up half-way (it panics and recovers, as callers may): the queries that follow,
 							// its own and everybody else's, are not affected by what that search left behind
@@ -322,7 +341,14 @@ func init() {
 						}
 						for rep := 0; rep < 3; rep++ { // repeat so that the goroutines overlap for a while
 							var e qtEv
+							askedRight := true
+							for a := 0; a < 20; a++ { // (twenty times: a search given up, then an ordinary one - which must be ordinary)
+								askedRight = abortAndAsk(rep*20+a) && askedRight
+							}
 							qtObserve(q, &e, plans[g].qs, g%2 == 0) // with and without per-goroutine buffers
+							if !askedRight {
+								e.Inb = append(e.Inb, []int{0, 0, 0, 0, 1, 0, -3}) // no model accepts this row
+							}
 							// ... and questions to ANOTHER pre-built tree in between (k = 300 of its 400 points): trees share nothing
 							if g%2 == 1 {
 								for si, sp := range c19SidePts {
